@@ -285,12 +285,12 @@ Definition scan_lit_string (l : str) : sres str :=
       if q =? c_bquote then
         match raw_body l' with
         | Some b => inl (q :: b)
-        | None => inr (lenN l, SE_string_not_terminated)
+        | None => inr (0, SE_string_not_terminated)
         end
       else
         match istr_body (S (length l')) l' with
         | inl b => inl (q :: b)
-        | inr None => inr (lenN l, SE_string_not_terminated)
+        | inr None => inr (0, SE_string_not_terminated)
         | inr (Some e) => inr (0, e)
         end
   end.
